@@ -5,7 +5,6 @@ import (
 	"fmt"
 	"sort"
 	"strings"
-	"sync"
 	"time"
 
 	"github.com/jcmturner/gokrb5/v8/iana/nametype"
@@ -17,7 +16,7 @@ import (
 // sessions hold TGTs and are keyed on the realm name
 type sessions struct {
 	Entries map[string]*session
-	mux     sync.RWMutex
+	mux     sessionsMutex
 }
 
 // destroy erases all sessions
@@ -68,7 +67,7 @@ type session struct {
 	sessionKey           types.EncryptionKey
 	sessionKeyExpiration time.Time
 	cancel               chan bool
-	mux                  sync.RWMutex
+	mux                  sessionMutex
 }
 
 // jsonSession is used to enable marshaling some information of a session in a JSON format
